@@ -168,7 +168,20 @@ EqZeroProg(X) ==
                 <<5, 6>>, <<6, 5>>, <<5, 8>>, <<8, 5>>, <<6, 8>>, <<8, 6>>, <<5, 7>>, <<7, 5>>,          \* container with container
                 <<1, 6>>, <<6, 1>>, <<1, 8>>, <<8, 1>>, <<1, 7>>, <<7, 1>>}                              \* bare float with container
   IN [key |-> "kinds/eqzero/" \o ToString(X), leaves |-> leaves, code |-> wraps \o SetToSeq({Ins2(op, p[1], p[2]) : op \in {"eq", "ne"}, p \in pairs})]
-KindProgs == {SignZeroProg} \cup {EqZeroProg(X) : X \in {<<"a">>, <<"a", "b">>}} \cup {KindProgV(X, Y, c) : X \in {<<"a", "b">>, <<>>}, Y \in {<<"a", "b">>, <<"b", "c">>, <<"b", "a">>}, c \in BOOLEAN}
+\* remainders of NEGATIVE dividends (truncated, not floored: -7.5 % 2 = -1.5), container against raw float in both
+\* positions, container against container, and the bare twins
+\* registers: 1 F(-15/2) 2 D1(-15/2) 3 D2(-15/2) 4 F(2) 5 F(-2) 6 D1(2) 7 D2(2); 8..14 their wrap-copies
+NegRemProg ==
+  LET X == <<"a", "b">>
+      leaves == << LeafF(FOfRat(-15, 2)), Leaf("D1", 1, FOfRat(-15, 2), X), Leaf("D2", 2, FOfRat(-15, 2), X), LeafF(FOfInt(2)), LeafF(FOfInt(-2)),
+                   Leaf("D1", 3, FOfInt(2), X), Leaf("D2", 4, FOfInt(2), X) >>
+      wraps == [i \in 1..7 |-> [op |-> "wrap", a |-> i]]
+      code == {Bin("rem", a, b, f) : a \in {8, 9, 10}, b \in {4, 5}, f \in Forms} \cup {Bin("rem", b, a, f) : a \in {8, 9, 10, 13, 14}, b \in {1, 4, 5}, f \in Forms}
+              \cup {Bin("rem", a, b, f) : a \in {8, 9, 10}, b \in {11, 12}, f \in {<<"r", "r">>, <<"v", "v">>}}
+              \cup {Bin("rem", 9, 13, <<"r", "r">>), Bin("rem", 10, 14, <<"r", "r">>), Bin("rem", 8, 13, <<"r", "r">>), Bin("rem", 8, 14, <<"v", "v">>)}
+              \cup {Bin("rem", a, b, <<"r", "r">>) : a \in {1, 2, 3}, b \in {4, 5}} \cup {Bin("rem", 2, 6, <<"r", "r">>), Bin("rem", 3, 7, <<"r", "r">>), Bin("rem", 1, 6, <<"r", "r">>), Bin("rem", 1, 7, <<"r", "r">>)}
+  IN [key |-> "kinds/negrem", leaves |-> leaves, code |-> wraps \o SetToSeq(code)]
+KindProgs == {SignZeroProg, NegRemProg} \cup {EqZeroProg(X) : X \in {<<"a">>, <<"a", "b">>}} \cup {KindProgV(X, Y, c) : X \in {<<"a", "b">>, <<>>}, Y \in {<<"a", "b">>, <<"b", "c">>, <<"b", "a">>}, c \in BOOLEAN}
 
 \* ---- order family (C19) ----------------------------------------------------------------------
 Vals == {FOfRat(-5, 2), FOfInt(-1), FOfRat(-3, 4), FOfRat(3, 4), FOfInt(1), FOfRat(5, 2)}
